@@ -386,6 +386,8 @@ pub struct World {
     /// every (head, kind, intent name) the behaviour has offered so far
     pub known: BTreeSet<((u64, u64), String, String)>,
     pub submissions: BTreeMap<((u64, u64), String), [u8; 32]>,
+    /// harness-side history: how often "head/intent" was committed by a pass that survived (C08)
+    pub commit_counts: BTreeMap<String, u32>,
     pub saved_tick: BTreeMap<u64, WorldlineTick>,
     pub saved_gt: Option<GlobalTick>,
     /// restore closures over the (unnameable) `ProvenanceCheckpoint` taken before a `provinject`
@@ -393,6 +395,7 @@ pub struct World {
 }
 
 pub struct WorldSnap {
+    pub commit_counts: BTreeMap<String, u32>,
     pub rt: WorldlineRuntime,
     pub prov: ProvenanceService,
     pub topo: Vec<u64>,
@@ -449,6 +452,7 @@ impl World {
             heads,
             known: BTreeSet::new(),
             submissions: BTreeMap::new(),
+            commit_counts: BTreeMap::new(),
             saved_tick: BTreeMap::new(),
             saved_gt: None,
             saved_prov: BTreeMap::new(),
@@ -459,6 +463,7 @@ impl World {
     /// between commits and is therefore shared).
     pub fn snap(&self) -> WorldSnap {
         WorldSnap {
+            commit_counts: self.commit_counts.clone(),
             rt: self.rt.clone(),
             prov: self.prov.clone(),
             topo: self.topo.clone(),
@@ -470,6 +475,7 @@ impl World {
 
     pub fn from_snap(s: &WorldSnap, engine: Engine) -> Self {
         Self {
+            commit_counts: s.commit_counts.clone(),
             rt: s.rt.clone(),
             prov: s.prov.clone(),
             engine,
